@@ -958,6 +958,22 @@ def r14_distinct_keeps_rows(ctx, res):
         raise AnalysisError(f'only {n} distinct SELECT shapes found in wn/_queries.py')
 
 
+def r15_subcat_links_from_every_entry(ctx, res):
+    """the sense-frame links of WN-LMF 1.1+ (`<Sense subcat="...">`) are collected from the local senses of EVERY entry of the
+    lexicon - a sense an extension adds inside an <ExternalLexicalEntry> is local and may name frames too; only the 1.0-style
+    entry-level <SyntacticBehaviour> children are restricted to local entries.  On the effect summary of _add._collect_frames."""
+    from ..speccheck import view
+    v = view(ctx, '_add', '_collect_frames')
+    key = 'subcat-links:every-entry'
+    links = [r for r in v.rows if r[0] == 'call' and r[1].endswith(".append($2['id'])") and len(r[3]) == 3 and 'subcat' in r[3][2]]
+    res.inst(key, v.loc(), f'{[(list(r[3]), sorted(r[2])) for r in links]}')
+    ok = len(links) == 1 and links[0][3][0] == "for lexicon.get('entries', [])" and links[0][3][1] == "for _local_senses($1.get('senses', []))" \
+        and not links[0][2]
+    if not ok:
+        res.find(key, v.loc(), '_collect_frames no longer takes the subcat links from the local senses of every entry (external entries '
+                               f'included): {[(list(r[3]), sorted(r[2])) for r in links]} - a sense an extension adds to an external entry '
+                               'loses its frames')
+
 RULES = [
     ('C01-R1', r1_compile_arity, 150),
     ('C01-R2', r2_bindings, 200),
@@ -973,4 +989,5 @@ RULES = [
     ('C01-R12', r12_id_lookups_use_equality, 30),
     ('C01-R13', r13_metadata_tables, 3),
     ('C01-R14', r14_distinct_keeps_rows, 25),
+    ('C01-R15', r15_subcat_links_from_every_entry, 1),
 ]
